@@ -1,2 +1,109 @@
-From GB Require Import Bucket BucketOpen Gc.
-Example C18_placeholder : True. Proof. exact I. Qed.
+(* C18 -- GC actually reclaims: no superseded record survives in the collected range.
+   Property theorems only; proofs live in proofs/GcView.v (Section GV2b: region invariant GC2, prefix invariant GP;
+   Section GV3: gc_pass_reclaims). *)
+From Coq Require Import NArith ZArith List Bool String.
+From GB Require Import Consts Words Hash Compress Bucket BucketOpen Gc CheckL2 RefMap Refine CollideProofs GcView.
+Import ListNotations.
+Open Scope N_scope.
+
+(* what "current record of its key" means for a record e = (offset, record) found in data file c of bucket b:
+     cur_or_tomb hf begin b c e :=
+        (exists s, tree_get_slot b (hf key) = Some s /\ s_pos s = (c, offset))            -- the index points at exactly this record
+     \/ (tree_get_slot b (hf key) = None /\ d_ver record < 0 /\ 0 < begin)                 -- a tombstone of a key the index has
+                                                                                            forgotten, kept because GC did not
+                                                                                            start at file 0
+   By C03 (Rel after the pass) the record the index points at is the one every read of that key returns. *)
+
+(* (1) EVERY file of the collected range, after a pass (no merge) over ANY legal range on ANY bucket state that
+   satisfies the refinement relation and GPre: every record that an independent scan finds in it is the current
+   record of its key in the sense above, and it is the only record at its offset.  Every overwritten value, every
+   tombstone of a key that was later rewritten, every record of a key deleted and forgotten while GC starts at 0,
+   is gone. *)
+Theorem C18_range_files_hold_only_current_records : forall (cf : cfg) (hf : bytes -> N) (K : list bytes),
+  (forall k1 k2, In k1 K -> In k2 K -> hf k1 = hf k2 -> k1 = k2) -> 0 < c_splitcap cf ->
+  forall b m begin_ end_,
+  Rel hf K b m -> GPre cf hf K b -> (begin_ <= end_ < b_head b)%nat ->
+  let b' := fst (gc_pass cf hf b begin_ end_ false) in
+  forall c e, (begin_ <= c <= end_)%nat -> In e (k_disk (chunk_at b' c)) ->
+    cur_or_tomb hf begin_ b' c e /\ find_off (k_disk (chunk_at b' c)) (fst e) = Some (snd e).
+Proof. exact gc_pass_range_files. Qed.
+Print Assumptions C18_range_files_hold_only_current_records.
+
+(* (2) EXACTLY ONCE: two records of one key that the index knows cannot both be in the range afterwards *)
+Theorem C18_each_indexed_key_once : forall (cf : cfg) (hf : bytes -> N) (K : list bytes),
+  (forall k1 k2, In k1 K -> In k2 K -> hf k1 = hf k2 -> k1 = k2) -> 0 < c_splitcap cf ->
+  forall b m begin_ end_,
+  Rel hf K b m -> GPre cf hf K b -> (begin_ <= end_ < b_head b)%nat ->
+  let b' := fst (gc_pass cf hf b begin_ end_ false) in
+  forall c1 e1 c2 e2, (begin_ <= c1 <= end_)%nat -> (begin_ <= c2 <= end_)%nat ->
+    In e1 (k_disk (chunk_at b' c1)) -> In e2 (k_disk (chunk_at b' c2)) -> d_key (snd e1) = d_key (snd e2) ->
+    tree_get_slot b' (hf (d_key (snd e1))) <> None -> c1 = c2 /\ e1 = e2.
+Proof. exact gc_pass_range_once. Qed.
+Print Assumptions C18_each_indexed_key_once.
+
+(* (3) THE WHOLE PICTURE, including the earlier file GC merely appended to (dst0 < begin): there is a last
+   destination D with dst0 <= D <= end such that
+   - the files strictly between dst0 and begin were empty before the pass (that is why dst0 was chosen);
+   - every record in files dst0..D that lies at or above the old end W0 of dst0 is current (as in (1));
+   - the files D+1..end are empty (their space has been returned);
+   - the records of dst0 below W0 are exactly the records that were there before, and no record straddles W0:
+     the earlier file's old part is unchanged, GC only appended to it;
+   - every file still has at most one record per offset and nothing buffered. *)
+Theorem C18_pass_layout : forall (cf : cfg) (hf : bytes -> N) (K : list bytes),
+  (forall k1 k2, In k1 K -> In k2 K -> hf k1 = hf k2 -> k1 = k2) -> 0 < c_splitcap cf ->
+  forall b m begin_ end_,
+  Rel hf K b m -> GPre cf hf K b -> (begin_ <= end_ < b_head b)%nat ->
+  let b' := fst (gc_pass cf hf b begin_ end_ false) in
+  let dst0 := pick_dst cf (before_bucket cf b false) begin_ begin_ in
+  let W0 := if Nat.eqb dst0 begin_ then 0 else k_size (chunk_at b dst0) in
+  exists D, (dst0 <= begin_ /\ dst0 <= D <= end_)%nat /\
+    (forall c, (dst0 < c < begin_)%nat -> k_disk (chunk_at b c) = []) /\
+    (forall c e, (dst0 <= c <= D)%nat -> In e (k_disk (chunk_at b' c)) -> (c = dst0 -> W0 <= fst e) -> cur_or_tomb hf begin_ b' c e) /\
+    (forall c, (D < c <= end_)%nat -> k_disk (chunk_at b' c) = [] /\ k_size (chunk_at b' c) = 0) /\
+    (forall e, rend e <= W0 -> (In e (k_disk (chunk_at b' dst0)) <-> In e (k_disk (chunk_at b dst0)))) /\
+    (forall e, In e (k_disk (chunk_at b' dst0)) -> rend e <= W0 \/ W0 <= fst e) /\
+    (forall c, (c < b_head b)%nat -> gchunk (chunk_at b' c)).
+Proof. exact gc_pass_reclaims. Qed.
+Print Assumptions C18_pass_layout.
+
+(* (4) the clause "each exactly once" is REFUTED for forgotten tombstones (known finding F11): after a restart
+   with the tree rebuilt (tombstones are not re-inserted) a pass with begin > 0 keeps EVERY tombstone it meets
+   whose key the tree does not know.  Layout [P Q][K1 Kdel][K2 Kdel][Y Z][W], restart without tree files,
+   gc(1,2): both tombstones of K (versions -2 and -4) survive in file 1.  (1) shows this is the ONLY way a
+   superseded record survives: the second disjunct of cur_or_tomb.  Replayed on the implementation by the
+   l2 gc suite (corpus/C18/F11.json). *)
+Definition f11_lc : l2cfg := mkL2 (mkCfg 512 100 1048576 false 3 false 1) [] 0.
+Definition f11_z : zinfo := mkZ true 0 0.
+Definition f11_ops : list l2op :=
+  [OSet "50" "70" 0 0 1 f11_z; OSet "51" "71" 0 0 2 f11_z; OSet "4b" "6b31" 0 0 3 f11_z; ODel "4b"; OSet "4b" "6b32" 0 0 4 f11_z; ODel "4b";
+   OSet "59" "79" 0 0 5 f11_z; OSet "5a" "7a" 0 0 6 f11_z; OSet "57" "77" 0 0 7 f11_z; OFlush; ORestart (mkRm true [] false)].
+
+Theorem C18_dup_tombstone_refuted :
+  exists b r1 r2, run_b f11_lc bucket0 f11_ops = Some b /\
+    let b' := fst (gc_pass (l_cfg f11_lc) (forced_hash []) b 1 2 false) in
+    In (0, r1) (k_disk (chunk_at b' 1)) /\ In (256, r2) (k_disk (chunk_at b' 1)) /\
+    d_key r1 = unhex "4b" /\ d_key r2 = unhex "4b" /\ d_ver r1 = (-2)%Z /\ d_ver r2 = (-4)%Z /\
+    tree_get_slot b' (forced_hash [] (unhex "4b")) = None.
+Proof.
+  eexists. eexists. eexists. split; [vm_compute; reflexivity|]. cbv zeta.
+  split; [vm_compute; left; reflexivity|]. split; [vm_compute; right; left; reflexivity|].
+  repeat split; vm_compute; reflexivity.
+Qed.
+Print Assumptions C18_dup_tombstone_refuted.
+
+(* non-vacuity of (1)-(3): a reachable state (by C03_reachable_states_qualify every state reached by client
+   operations and restarts meets GPre) on which the pass really drops records: three 512-byte files with a
+   superseded value, a delete and live keys; gc(0,1) leaves exactly the current records *)
+Definition ex18_lc : l2cfg := mkL2 (mkCfg 512 4096 16 false 3 false 1) [] 0.
+Definition ex18_pre : list l2op :=
+  [OSet "6b31" "6161" 0 0 1 f11_z; OSet "6b32" "6262" 0 0 2 f11_z; OSet "6b31" "6363" 0 0 3 f11_z; OSet "6b33" "6464" 0 0 4 f11_z;
+   ODel "6b32"; OSet "6b34" "6565" 0 0 5 f11_z; OFlush].
+Example C18_nonvacuous :
+  exists b, run_b ex18_lc bucket0 ex18_pre = Some b /\
+    model_data b = [(0, 512, [(0, unhex "6b31", 1%Z); (256, unhex "6b32", 1%Z)]);
+                    (1, 512, [(0, unhex "6b31", 2%Z); (256, unhex "6b33", 1%Z)]);
+                    (2, 512, [(0, unhex "6b32", (-2)%Z); (256, unhex "6b34", 1%Z)])] /\
+    model_data (fst (gc_pass (l_cfg ex18_lc) (forced_hash []) b 0 1 false)) =
+                   [(0, 512, [(0, unhex "6b31", 2%Z); (256, unhex "6b33", 1%Z)]);
+                    (2, 512, [(0, unhex "6b32", (-2)%Z); (256, unhex "6b34", 1%Z)])].
+Proof. eexists. split; [vm_compute; reflexivity|]. split; vm_compute; reflexivity. Qed.
